@@ -224,6 +224,9 @@ pub enum EntrySpec {
     Grouped { n: usize, per_group: usize, klen: usize, vlen: usize },
     /// hex encoded (key, value) pairs
     Explicit(Vec<(String, String)>),
+    /// three entries a, b, c where b's value is `vlen` incompressible bytes (xorshift stream): one
+    /// stored block of more than `vlen` bytes under every codec, between two tiny ones
+    BigMiddle { vlen: usize },
 }
 
 impl EntrySpec {
@@ -241,6 +244,19 @@ impl EntrySpec {
                 .collect(),
             EntrySpec::Explicit(v) => {
                 v.iter().map(|(k, v)| (crate::report::unhex(k), crate::report::unhex(v))).collect()
+            }
+            EntrySpec::BigMiddle { vlen } => {
+                let mut x: u64 = 0x9E37_79B9_7F4A_7C15 ^ (*vlen as u64);
+                let mut big = Vec::with_capacity(*vlen);
+                while big.len() < *vlen {
+                    x ^= x << 13;
+                    x ^= x >> 7;
+                    x ^= x << 17;
+                    let b = x.to_le_bytes();
+                    let take = (*vlen - big.len()).min(8);
+                    big.extend_from_slice(&b[..take]);
+                }
+                vec![(b"a".to_vec(), vec![7]), (b"b".to_vec(), big), (b"c".to_vec(), vec![9])]
             }
         }
     }
